@@ -16,7 +16,8 @@ RULE = ("per-run seed -> schema with a random subset of stored/sortable field ty
         "the library never parameterises (CompoundWriter buffer 64 B..32 KB, VarBytesColumn offsets cutoff 2..32768); half of the runs with a "
         "reference column cross 256 distinct values in one transaction; after every commit "
         "stored fields and column values of every live document are compared with what was supplied (or the column default). "
-        "Non-trivial = >=1 commit and >=1 read-back; distinct = distinct event-log SHA-256.")
+        "Non-trivial = >=1 commit and >=1 read-back; distinct = distinct event-log SHA-256."
+        ' 25% of runs end with documents held by a BufferedWriter read back twice (scribbling caller) and flushed.')
 ASSUMPTIONS = ["column default = field.from_column_value(column_type.default_value()) (pure conversion functions are trusted)",
                "offsets beyond 2^31 and >65 536 distinct reference values are not reached in the quick tier (thorough runs one large-cardinality variant per 50 seeds)"]
 TIERS = {"quick": {"runs": 1200, "time_budget": 100, "audit_every": 40},
